@@ -468,7 +468,7 @@ class Repo:
         """Construct key: file::qualname::normalised statement text (never a line number)."""
         text = node if isinstance(node, str) else header(node)
         if fi is not None:
-            return f"{fi.relpath}::{fi.qualname}::{text}"
+            return f"{fi.relpath}::{getattr(fi, 'shown', fi.qualname)}::{text}"
         assert mod is not None
         return f"{mod.relpath}::<module>::{text}"
 
